@@ -19,6 +19,8 @@ def generate(gen, tier):
         quirks = gen.rng.random() < 0.35
         t = gen.tree(depth=gen.rng.choice([2, 3, 3, 4]), width=gen.rng.choice([3, 4]), quirks=quirks,
                      weights=[2, 2, 2, 1, 1, 1, 1, 1, 5 if quirks else 2, 1, 2])
+        if gen.rng.random() < 0.25:
+            t = gen.with_leafless(t, 0.4)
         cfg = gen.cfg()
         cases.append(mk_case(cfg, t))
     # depth chains around the limit
@@ -30,6 +32,16 @@ def generate(gen, tier):
                 continue
             t = gen.chain(k, d)
             cases.append(mk_case(gen.cfg(ns='', pred=0, nil=False, ordered=[]), t, heavy=True))
+    # over-deep by one with a predicate that accepts the object at the deepest level
+    for k in ('l', 'T', 'D', 'U'):
+        for d in (1000, 1001, 1002):
+            for pred, bottom in ((1, [A('T'), gen.leaf(0)]), (5, [A('L'), 0, 2 * gen.fresh_uid()]), (3, A('N')),
+                                 (6, [A('l')]), (2, [A('D'), [[A('s'), 'a'], gen.leaf(0)], [[A('s'), 'b'], gen.leaf(0)]])):
+                if tier == 'quick' and (k in ('T', 'D') and d != 1001):
+                    continue
+                t = gen.chain(k, d, bottom=bottom)
+                for nil in (False, True):
+                    cases.append(mk_case(gen.cfg(ns='', pred=pred, nil=nil, ordered=[]), t, heavy=True))
     # malformed node whose extra child is over-deep (the entries check and the depth check race)
     deep = gen.chain('l', 1001)
     for q in ('ent-', 'ent+'):
